@@ -21,7 +21,7 @@ RULE = ("the real fork.Fold, pipe.Fold and a plain loop are run for each of six 
         "bitwise and, bitmask or: identities 0, 1, min-int, max-int, -1, 0) x par in {1,2,3,4,7} x input length 0..12 (so also empty "
         "and shorter than par) x three ways of feeding the input (preloaded/free-running, synctest round-robin, yielding producer) x "
         "input families from VERIF_SEED (positional inputs whose fold shows how often each element was combined, and random ones; "
-        "products and sums asserted not to overflow); a case is distinct by (monoid, par, mode, input) and non-trivial when the input "
+        "products and sums asserted not to overflow); plus volume rounds (sum of 1..N, N = 2000 / 200000, 2..16 workers really in parallel under GOMAXPROCS 4..16, 60 quick / 300 thorough, judged in Go, failing rounds and two passing ones forwarded in compact form); a case is distinct by (monoid, par, mode, input) and non-trivial when the input "
         "is non-empty or the identity is non-zero")
 TRUSTED = [
     "modelled, not verified: fork.Fold as the machine of coq/theories/Pipe/ForkFold.v (workers, internal channel of capacity par, collector); "
